@@ -19,6 +19,16 @@ Driver shared by C01 / C02 / C03.  Protocol of one case:
   cycle                                     -> m <ok|ErrorVariant|panic> frames=<n> <name>=<Tag>:<v> …
   end
 
+Oracle-only cases (features the models do not cover: VAR_TEMP, FB outputs bound to elements of
+frame-local variables, I/O latching, restarts, several programs).  The programs are well typed by
+construction, the model has no opinion on the values, and only the properties' own statements
+are evaluated on what the implementation did (pass 2):
+
+  odecl <slot> <Tag>                        declared tag of a dumped slot
+  obs <outcome> frames=<n> <slot>=<Tag>:<v> …   -> m seen     (the observation is in the op line)
+  obst <outcome> frames=<n> <slot>=<Tag>:<v> …  -> m seen     (judged by C03 only: histories in
+                                            which the environment writes ill-typed process-image values)
+
 `driver c01`         (pass 1) prints the model's answers (`m …`) for the correspondence diff.
 `driver c01 oracle`  (pass 2) reads the `impl` lines and evaluates the three properties' own
 statements on the IMPLEMENTATION's behaviour; one line per case:
@@ -54,6 +64,9 @@ structure Case where
   steps : List Step := []             -- reversed while reading
   pending : List (String × Val) := []
   bad : Bool := false
+  /-- oracle-only cases: declared tags and observations (reversed while reading) -/
+  odecls : List (String × String) := []
+  obs : List (Bool × String) := []        -- (judged by C01 too, observation)
   /-- operations in file order (reversed while reading), for pass 1: true = check, false = cycle -/
   ops : List Bool := []
   lastOp : Option Bool := none
@@ -120,6 +133,9 @@ def readLine (c : Case) (line : String) : Case :=
       match parseXBlock? toks with
       | some b => { c with xbody := some b }
       | none => { c with bad := true }
+  | ["odecl", slot, tag] => { c with odecls := (slot, tag) :: c.odecls }
+  | "obs" :: rest => { c with obs := (true, joinWith " " rest) :: c.obs, lastOp := none }
+  | "obst" :: rest => { c with obs := (false, joinWith " " rest) :: c.obs, lastOp := none }
   | ["check"] => { c with ops := true :: c.ops, lastOp := some true }
   | ["set", name, val] =>
     match parseVal? val with
@@ -135,7 +151,7 @@ def readLine (c : Case) (line : String) : Case :=
       match c.steps with
       | s :: ss => { c with steps := { s with impl := some (joinWith " " rest) } :: ss, lastOp := none }
       | [] => { c with bad := true }
-    | none => { c with bad := true }
+    | none => if c.obs.isEmpty then { c with bad := true } else c
   | _ => { c with bad := true }
 
 def applySets (rs : RunState) (sets : List (String × Val)) : RunState :=
@@ -166,6 +182,7 @@ def emitModel (accepted : Bool) (ops : List Bool) (outs : List (CycleOut × Env 
     | [] => "bad-op" :: emitModel accepted rest []
 
 def modelPass (c : Case) : List String :=
+  if !c.obs.isEmpty then (if c.bad then c.obs.map fun _ => "bad-op" else c.obs.map fun _ => "m seen") else
   match c.xprogram with
   | some xp =>
     if c.bad then c.ops.map fun _ => "bad-op" else
@@ -282,8 +299,7 @@ def repairs (p : Program) : List (String × Cfg) :=
     ("coerce-write", { coerce := some p.ctx }),
     ("lit-lowering+coerce-write", { litSmallest := true, coerce := some p.ctx }),
     ("for-ulint-cast", { forExact := true }),
-    ("index-ulint-cast", { idxExact := true }),
-    ("all", { litSmallest := true, coerce := some p.ctx, forExact := true, idxExact := true }) ]
+    ("all", { litSmallest := true, coerce := some p.ctx, forExact := true }) ]
 
 def c02Oracle (p : Program) (steps : List Step) (impl : List ImplCycle) (isStrict : Bool) : String :=
   let spec := runSpec p steps
@@ -315,7 +331,6 @@ def oraclePassX (c : Case) (p : XProgram) : String :=
   if c.bad then s!"o {c.n} bad-op" else
   let steps := c.steps.reverse
   let acc := c.verdict == some "accept"
-  let pre := ""
   let head := s!"o {c.n} acc={if acc then 1 else 0} strict=0 spec=0"
   if c.verdict == some "panic" then s!"{head} c01=compile-panic c02=na c03=ok" else
   if !acc then s!"{head} c01=ok c02=na c03=ok" else
@@ -323,6 +338,12 @@ def oraclePassX (c : Case) (p : XProgram) : String :=
   if implO.any Option.isNone then s!"o {c.n} bad-op" else
   let impl := implO.filterMap id
   let model := runModelX p steps
+  -- a recorded finding can explain a failure only if the implementation behaves exactly as the
+  -- model of the code as it is; otherwise the failure is new (`unmodelled:` never matches a finding)
+  let explained := p.accepted && (steps.zip model).all fun (s, (o, e, f)) => s.impl == some (showCycle o e f)
+  -- recorded finding: the initialiser of a FUNCTION local is never checked
+  let initHole := p.funcs.any fun fd => fd.locals.any fun l => !localInitTyped p.funcs fd l
+  let pre := if !explained then "unmodelled:" else if initHole then "local-init-unchecked:" else ""
   let c01 := firstNotOk (c01go false impl model)
   -- declared types: the PROGRAM's variables and, per FB instance, the FB's parameters and VARs
   let ctx : Ctx := (p.decls.map fun d => (d.name, d.ty)) ++
@@ -341,9 +362,60 @@ def oraclePassX (c : Case) (p : XProgram) : String :=
     | some (_, cl) => cl.sig
   let c03 := firstNotOk c03s
   let dress (s : String) := if s = "ok" ∨ s = "na" then s else pre ++ s
-  s!"{head} c01={dress c01} c02=na c03={dress c03}"
+  -- no reference for calls yet: for C02 the validated model stands in for it
+  let c02 := if explained then "na" else "unmodelled:differs-from-model"
+  s!"{head} c01={dress c01} c02={c02} c03={dress c03}"
+
+/-- One dumped slot of an oracle-only observation: tag as printed, value (0 for non-integers). -/
+def parseOSlot (w : String) : Option (String × String × Int) :=
+  match w.splitOn "=" with
+  | [x, tv] =>
+    match tv.splitOn ":" with
+    | [t, v] => v.toInt?.map fun n => (x, t, n)
+    | _ => none
+  | _ => none
+
+/-- C03 on an oracle-only observation: every declared slot is present, carries the declared tag,
+and an integer lies in the range of its kind. -/
+def c03Obs (odecls : List (String × String)) (slots : List (String × String × Int)) : String :=
+  let bad := odecls.findSome? fun (x, t) =>
+    match slots.find? (fun s => s.1 = x) with
+    | none => some s!"missing:{x}"
+    | some (_, tag, v) =>
+      if tag ≠ t then some s!"foreign-tag:{t}:{tag}"
+      else
+        match IKind.all.find? (fun k => k.tag = t) with
+        | some k => if k.inRange v then none else some "range"
+        | none => if t = "Bool" ∧ v ≠ 0 ∧ v ≠ 1 then some "range" else none
+  bad.getD "ok"
+
+/-- Pass 2 for an oracle-only case. -/
+def oraclePassObs (c : Case) : String :=
+  if c.bad then s!"o {c.n} bad-op" else
+  let head := s!"o {c.n} acc=1 strict=0 spec=0"
+  let rec go (prev : Bool) : List (Bool × String) → List (String × String)
+    | [] => []
+    | (j01, o) :: rest =>
+      match words o with
+      | outcome :: fr :: vars =>
+        let frames := match fr.splitOn "=" with
+          | ["frames", n] => n.toNat?
+          | _ => none
+        let slots := vars.map parseOSlot
+        match frames with
+        | none => [("bad-obs", "bad-obs")]
+        | some f =>
+          if slots.any Option.isNone then [("bad-obs", "bad-obs")] else
+          let ic : ImplCycle := { outcome := outcome, frames := f, env := [], otherTags := false }
+          ((if j01 then c01Cycle ic prev none else "ok"), c03Obs c.odecls.reverse (slots.filterMap id))
+            :: go (prev || (outcome ≠ "ok")) rest
+      | _ => [("bad-obs", "bad-obs")]
+  let rs := go false c.obs.reverse
+  let dress (s : String) := if s = "ok" then s else "unmodelled:" ++ s
+  s!"{head} c01={dress (firstNotOk (rs.map (·.1)))} c02=na c03={dress (firstNotOk (rs.map (·.2)))}"
 
 def oraclePass (c : Case) : String :=
+  if !c.obs.isEmpty then oraclePassObs c else
   match c.xprogram with
   | some xp => oraclePassX c xp
   | none =>
@@ -355,7 +427,6 @@ def oraclePass (c : Case) : String :=
     let acc := c.verdict == some "accept"
     let isStrict := Strict p
     let isSpec := Spec.typed p
-    let pre := if isStrict then "strict:" else ""
     let head := s!"o {c.n} acc={if acc then 1 else 0} strict={if isStrict then 1 else 0} spec={if isSpec then 1 else 0}"
     if c.verdict == some "panic" then s!"{head} c01=compile-panic c02=na c03=ok" else
     if !acc then
@@ -367,6 +438,8 @@ def oraclePass (c : Case) : String :=
     if implO.any Option.isNone then s!"o {c.n} bad-op" else
     let impl := implO.filterMap id
     let model := runModel .real p steps
+    let explained := p.accepted && (steps.zip model).all fun (s, (o, e, f)) => s.impl == some (showCycle o e f)
+    let pre := if isStrict then "strict:" else if explained then "" else "unmodelled:"
     let c01 := firstNotOk (c01go false impl model)
     -- C03: every cycle boundary, also after a faulted cycle
     let c03s := impl.map fun ic =>
@@ -375,7 +448,8 @@ def oraclePass (c : Case) : String :=
       | none => "ok"
       | some (_, cl) => cl.sig
     let c03 := firstNotOk c03s
-    let c02 := if isSpec then c02Oracle p steps impl isStrict else "na"
+    let c02 := if isSpec then c02Oracle p steps impl (isStrict || !explained)
+      else if explained then "na" else "differs-from-model"
     let dress (s : String) := if s = "ok" ∨ s = "na" then s else pre ++ s
     s!"{head} c01={dress c01} c02={dress c02} c03={dress c03}"
 
